@@ -1,6 +1,7 @@
 import IstioModel.Common.Wire
 import IstioModel.C02.Model
 import IstioModel.C02.Queue
+import IstioModel.C02.Debounce
 
 /-! Line-protocol driver for C02 (stream `merge`; see harness/c02).  Objects are declared by `set`,
     `rsn`, `req` lines (ids are positions in the per-type stores, in declaration order) and then
@@ -48,6 +49,8 @@ structure DState where
   lastR : Option Ref := none     -- result of the last rcmerge
   nconn : Nat := 0               -- connections of a `queue` case are 0 .. nconn-1
   q : QState := {}               -- the queue (its heap field is the authoritative heap of a queue case)
+  dopts : DOpts := { after := 0, max := 0, eds := true }
+  db : DB := {}                  -- the debounce loop of a `debounce` case
 
 /-- `nil`, `last`, or an index below `n`. -/
 def parseRef (n : Nat) (last : Option Ref) (t : String) : Option (Option Ref) :=
@@ -155,10 +158,59 @@ def stepQueue (s : DState) (toks : List String) : DState × String :=
   | ["pending"] => (s, toString (pendingCount s.q))
   | _ => stepMerge s toks
 
+/-! ### stream `debounce`
+
+The real loop runs on physical timers, so batch boundaries are not comparable; what the theorems
+say is schedule-independent is compared: the union of facts handed to `pushFn`, the number of events
+committed, single flight.  The model takes every `send` as a `recv` event and, at `end`, is driven
+to quiescence through enabled events only. -/
+
+def factStrings (v : View) : List String :=
+  (keys v.configs).map (fun k => "c:" ++ k) ++ (keys v.addrs).map (fun k => "a:" ++ k) ++
+    (keys v.wps).map (fun k => "w:" ++ k) ++ (if v.forced then ["forced"] else [])
+
+/-- One round of "let everything that is running finish, then let the timer fire". -/
+def drainStep (o : DOpts) (s : DB) : Option DB :=
+  if !s.edsRunning.isEmpty then stepD o s .edsReturn
+  else if !s.running.isEmpty then stepD o s .pushReturn
+  else if s.freeTok then stepD o s .freeRecv
+  else match s.req, s.timerAt with
+    | some _, some t => (stepD o s (.tick (t + o.after + o.max))).bind (fun s' => stepD o s' .timer)
+    | _, _ => none
+
+def drain (o : DOpts) : Nat → DB → DB
+  | 0, s => s
+  | n + 1, s => match drainStep o s with
+    | some s' => drain o n s'
+    | none => s
+
+def stepDebounce (s : DState) (toks : List String) : DState × String :=
+  match toks with
+  | ["send", r] =>
+    match parseRefDecl s.heap.reqs.length r with
+    | some (some i) =>
+      match viewAt s.heap (some i) with
+      | some v => ({ s with db := onRecv s.dopts s.db v }, "ok")
+      | none => (s, "bad-op")
+    | _ => (s, "bad-op")
+  | ["sleep", d] => ({ s with db := { s.db with now := s.db.now + d.toNat?.getD 0 } }, "ok")
+  | ["hold"] => (s, "ok")
+  | ["release"] => (s, "ok")
+  | ["waitpush"] => (s, "ok")
+  | ["end"] =>
+    let f := drain s.dopts (4 * s.db.recvd.length + 8) s.db
+    let facts := (f.pushed ++ f.edsPushed).flatMap factStrings
+    let quiet := f.req.isNone && f.running.isEmpty && f.edsRunning.isEmpty && !f.freeTok
+    ({ s with db := f },
+     s!"facts={encSet facts} events={f.recvd.length} sent={f.sent} quiescent={boolTok quiet} single=1 batches=1 unmutated=1")
+  | _ => stepQueue s toks
+
 def step (s : DState) (toks : List String) : DState × String :=
   match toks with
   | "case" :: _ :: "queue" :: n :: _ => ({ nconn := n.toNat?.getD 0 }, "ok")
+  | "case" :: _ :: "debounce" :: a :: m :: e :: _ =>
+    ({ dopts := { after := a.toNat?.getD 0, max := m.toNat?.getD 0, eds := tokBool e } }, "ok")
   | "case" :: _ => ({}, "ok")
-  | _ => stepQueue s toks
+  | _ => stepDebounce s toks
 
 end IstioModel.C02
